@@ -1049,6 +1049,7 @@ var c01Prop = &reg.Property{
 				{Part: "C01/product", Build: "plain", Args: map[string]string{"set": "huge"}, Shards: 4, BudgetS: 80, Procs: 1, Label: "product huge P=200000 K=2 maxtx=1<<20 (boundary subset)"},
 			}
 		}
+		jobs = append(jobs, reg.Job{Part: "C01/special", Build: "plain", Shards: 4, BudgetS: 60, Procs: 1, Label: "served files whose stat size is 0 although they have content (procfs), every read path"})
 		if c01ExtraJobs != nil {
 			jobs = append(jobs, c01ExtraJobs(tier)...)
 		}
